@@ -247,6 +247,9 @@ Proof.
   intros I V. destruct o as [ob s e | ob w | t q | t]; simpl in V |- *.
   - (* add *)
     destruct V as [Vs Ve]. unfold add.
+    assert (Ns : neg_opt s = false) by (destruct s as [t|]; simpl; auto; destruct (Vs t eq_refl); lia).
+    assert (Ne : neg_opt e = false) by (destruct e as [t|]; simpl; auto; destruct (Ve t eq_refl); lia).
+    rewrite Ns, Ne. simpl orb. cbv iota.
     destruct (add_opt_ok SStart p ob s I Vs) as [p1 [E1 [I1 [A1 [B1 [C1 D1]]]]]]. rewrite E1.
     assert (Ve' : forall t, e = Some t -> 0 <= t /\ oref SEnd p1 ob = None).
     { intros t Et. destruct (Ve t Et). split; auto. rewrite (B1 SEnd) by discriminate. auto. }
